@@ -77,7 +77,10 @@ static size_t ares_evsys_poll_wait(ares_event_thread_t *e,
   if (fdlist != NULL && num_fds) {
     pollfd = ares_malloc_zero(sizeof(*pollfd) * num_fds);
     if (pollfd == NULL) {
-      goto done; /* LCOV_EXCL_LINE: OutOfMemory */
+      /* LCOV_EXCL_START: OutOfMemory */
+      ares_free(fdlist);
+      goto done;
+      /* LCOV_EXCL_STOP */
     }
     for (i = 0; i < num_fds; i++) {
       const ares_event_t *ev =
